@@ -1,6 +1,8 @@
 (* mpload_driver.ml — runs the extracted typed-load specification (coq/MpLoadModel.v: load_bytes =
    reference decoder, then load_spec) on the line protocol of harness/drv_mpload.cpp:
-     ld <m|s> <pol> <shape> <hexdoc>   ->  OK <tree> | ERR <cat> *)
+     ld <m|s> <pol> <shape> <hexdoc>   ->  OK <tree> | ERR <cat> | UNMODELLED
+   UNMODELLED: a map of the document that meets a std::map target has a key of another class than the
+   target's key type, or two keys that are not different (`modelled` of MpLoadModel.v is false) *)
 
 let err_cat = function EParse -> "P" | EMismatch -> "M" | EOverflow -> "O" | EInvalidArg -> "IA" | EInternal -> "STD"
 let serr_cat = function SE e -> err_cat e | SERange -> "R"
@@ -34,7 +36,7 @@ let parse_shape (t : string) : shape =
   let p = ref 0 in
   let token () =
     let q = ref !p in
-    while !q < String.length t && not (List.mem t.[!q] [';'; ']'; '}'; '=']) do incr q done;
+    while !q < String.length t && not (List.mem t.[!q] [';'; ']'; '}'; '='; '>'; '|'; ')']) do incr q done;
     let r = String.sub t !p (!q - !p) in p := !q; r in
   let rec go () : shape =
     let c = t.[!p] in incr p;
@@ -47,6 +49,24 @@ let parse_shape (t : string) : shape =
     | 's' -> ignore (token ()); SStr
     | 'b' -> ignore (token ()); SBytes
     | '[' -> let e = go () in if t.[!p] <> ']' then failwith "a vector shape holds one element shape"; incr p; SVec e
+    | 'v' -> SVecBool
+    | '(' ->
+      let cnt = int_of_string (token ()) in
+      if cnt > 4096 || t.[!p] <> '|' then failwith "bad array shape";
+      incr p;
+      let e = go () in
+      if t.[!p] <> ')' then failwith "bad array shape";
+      incr p;
+      SArr (nat_of_int cnt, e)
+    | '<' ->
+      let k = go () in
+      let ks = (match k with SStr -> KSStr | SInt kind -> KSInt kind | _ -> failwith "map keys are strings or integers") in
+      if t.[!p] <> '=' then failwith "bad map shape";
+      incr p;
+      let e = go () in
+      if t.[!p] <> '>' then failwith "bad map shape";
+      incr p;
+      SMap (ks, e)
     | '{' ->
       if t.[!p] = '}' then (incr p; SClass []) else begin
         let ms = ref [] in
@@ -91,9 +111,12 @@ let () =
           let s = parse_shape t.(3) in
           let data = parse_hexbytes t.(4) in
           print_endline
-            (match load_bytes narrow widen o s data with
-             | LErr e -> "ERR " ^ serr_cat e
-             | r -> "OK " ^ tree_text (fill s r))
+            (match decode data with
+             | Some (d, _) when not (modelled s d) -> "UNMODELLED"
+             | _ ->
+               (match load_bytes narrow widen o s data with
+                | LErr e -> "ERR " ^ serr_cat e
+                | r -> "OK " ^ tree_text (fill s r)))
         end else print_endline "UNSUPPORTED"
       with Failure m -> Printf.printf "EXC %s\n" m
          | Invalid_argument m -> Printf.printf "EXC %s\n" m
